@@ -2,14 +2,16 @@
 # seedeval.sh <PID> <N> [checks...]: confirm a seeded change (suite passes, demo fails with / passes without), then run the checks against it
 set -u
 PID=$1; N=$2; shift 2
-OUT=/tmp/mutout-$PID/$N
-WT=/tmp/mut-$PID
+W=${WAVE:-}
+OUT=/tmp/mutout$W-$PID/$N
+WT=/tmp/mut$W-$PID
+DF=${DEMO_FLAGS:-}
 export CARGO_TARGET_DIR=$WT/target
 cd $WT && git checkout -q -- . && rm -f tests/demo_*.rs
 cp $OUT/demo.rs tests/demo_seed.rs
-echo "== demo on unchanged tree"; cargo test --offline --test demo_seed 2>&1 | grep -E "^test result|panicked|error|signal" | head -3
+echo "== demo on unchanged tree"; cargo test --offline $DF --test demo_seed 2>&1 | grep -E "^test result|panicked|error|signal" | head -3
 git apply $OUT/patch.diff || { echo "PATCH DOES NOT APPLY"; exit 2; }
-echo "== demo with patch"; cargo test --offline --test demo_seed 2>&1 | grep -E "^test result|panicked|error|signal|SIG" | head -4
+echo "== demo with patch"; cargo test --offline $DF --test demo_seed 2>&1 | grep -E "^test result|panicked|error|signal|SIG" | head -4
 rm -f tests/demo_seed.rs
 echo "== suite with patch"; cargo test --offline 2>&1 | grep -E "^test result|FAILED" | head -6
 git checkout -q -- . 
